@@ -151,4 +151,38 @@ Proof.
     + apply (Hst_other j kj); auto.
 Qed.
 
+
+Lemma inv_shift : forall run e rest st, Inv run (e :: rest) total st ->
+  (forall r n w, e <> EFeed r n w) -> (forall c, e <> EStart c) -> Inv run rest total st.
+Proof.
+  intros run e rest st HI H1 H2. apply inv_rest with (rest := e :: rest); auto.
+  - intro r. symmetry. apply feeds_of_cons_other; auto.
+  - intros i k Hk Hs. rewrite <- (started_cons_other e) by auto. eapply (i_start _ _ _ _ _ _ HI); eauto.
+Qed.
+
+Lemma step_inv : forall fuel rest st e, (forall c, e <> EJoin c) ->
+  Inv None (e :: rest) total st -> Inv None rest total (step fuel st e).
+Proof.
+  intros fuel rest st e Hnj HI. unfold step.
+  rewrite (i_alive _ _ _ _ _ _ HI), (i_nodiv _ _ _ _ _ _ HI).
+  destruct e.
+  - apply start_inv; auto.
+  - pose proof (feed_inv _ _ _ _ _ HI) as HI'. destruct w; auto.
+    destruct (first_idx _ _ _); auto. eapply (complete_inv rs cs); eauto.
+  - eapply (reg_inv rs cs); eauto. eapply inv_shift; eauto; intros; discriminate.
+  - exfalso. eapply Hnj; eauto.
+  - eapply (complete_inv rs cs); eauto. eapply inv_shift; eauto; intros; discriminate.
+  - assert (HI' : Inv None rest total st) by (eapply inv_shift; eauto; intros; discriminate).
+    erewrite (timeout_inv rs cs); eauto.
+  - eapply inv_shift; eauto; intros; discriminate.
+Qed.
+
+Lemma script_inv : forall fuel script st, no_join script = true ->
+  Inv None script total st -> Inv None [] total (fold_left (step fuel) script st).
+Proof.
+  intros fuel script. induction script as [|e rest IH]; intros st Hnj HI; simpl; auto.
+  simpl in Hnj. apply andb_true_iff in Hnj as [H1 H2].
+  apply IH; auto. apply step_inv; auto. intros c E. subst e. discriminate.
+Qed.
+
 End Script.
